@@ -116,8 +116,16 @@ def defaults_of(cls):
     return _defaults[cls]
 
 
+# Flags.to_json is specialised to keep false values; it always emits the full dictionary and its documentation does
+# not promise the empty text.  Every other member of the family documents "no values -> empty string".
+NO_EMPTY_CONVENTION = {'Flags'}
+
+
 def uses_base_to_json(cls):
-    """True when cls inherits JSONField.to_json (the one documenting 'no values -> empty string')."""
+    """True when cls follows the documented convention 'a value with nothing set <-> empty text <-> absent':
+    it inherits JSONField.to_json and is not listed in NO_EMPTY_CONVENTION."""
+    if cls.__name__ in NO_EMPTY_CONVENTION:
+        return False
     for k in cls.__mro__:
         if 'to_json' in k.__dict__:
             return k.__name__ == 'JSONField'
@@ -461,8 +469,12 @@ def judge_jsondata(x, given=MISSING):
             if text != '{}':
                 return (f'C03/{low}-none-not-empty-object', 'no data is stored as the empty object', w)
         elif isinstance(given, str):
-            if text != given:
-                return (f'C03/{low}-text-altered', 'JSON text given to the constructor is stored verbatim', w)
+            try:
+                same = _dumps_stable(json.loads(text)) == _dumps_stable(json.loads(given))
+            except Exception:
+                return 'skip'
+            if not same:
+                return (f'C03/{low}-text-value-altered', 'JSON text given to the constructor keeps its value', w)
         else:
             try:
                 exp = _dumps_stable(json.loads(json.dumps(given)))
@@ -1140,7 +1152,7 @@ def run(ctx):
         run_edges(ctx)
     else:
         guard_cases(ctx)
-    n = ctx.pick(220, 4000)
+    n = ctx.pick(400, 4000)
     jd = G._jsondata_classes()
     for i in range(n):
         for name in sorted(classes):
